@@ -15,19 +15,18 @@
     one mapping (e113542), explicit tag contradicting the kind (b22de24 at the group/rules/rule sites, 4a0d172 on rule values
     and on collections tagged !!null): their former witnesses are machine-checked to be BLOCKED by the pint model now
     (C01_fixed_witnesses_blocked, _round3, _tag_kind).
-    The guards / hypothesis of the first three are gone from the theorem.  For b9483ac the pint model now contains the strict
-    pre-pass (strict_prepass, shared oracle null_ok), so H_null and the "null-tagged scalars spell a null" clause of the guard are
-    no longer needed for the property to hold of the real code; they are still premises of the theorem as stated (removing
-    them needs an extensionality argument for the loader model over the reachable nodes — not done).
+    The guards / hypotheses these repairs made unnecessary are gone from the main theorem: "record/alert/expr not null",
+    "group has a name or rules", H_int, and — since the pint model contains the strict pre-pass b9483ac with the shared
+    oracle null_ok — H_null and the guard clause "null-tagged scalars spell a null" (Proofs/C01_full.v: the loader model only
+    asks its null oracle about nodes reachable from the document, on those the pre-pass established the answer).
 
-    PROVED (C01_sound_partial), for every stream of documents and every oracle instance satisfying
+    PROVED (C01_sound_guarded, the main theorem), for every stream of documents and every oracle instance satisfying
       H_tmpl   pint's template check (ParseTest + Expand) is at least as strict as Prometheus' (ParseTest),
       H_str    a non-null scalar decodes into a Go string     (excludes explicit tags that do not resolve, bad !!binary),
-      H_null   a null-tagged scalar that spells a null resolves to null  (false only for an explicit !!null tag on a quoted text),
       H_empty  the empty string is not a label name, is a label value and is a valid template,
     and every single document satisfying [guards_doc] — the documented fragment:
       - one root; below it only mappings tagged !!map, sequences tagged !!seq and scalars with a scalar tag other
-        than !!merge: no explicit collection tags (C01-tag-kind), no null-tagged mapping keys, null-tagged scalars spell a null;
+        than !!merge: no explicit collection tags, no null-tagged mapping keys;
       - a rule may carry ONE MERGE KEY `<<: *anchor` ([merge_rule_guard]): the anchor is a plain alias-free mapping with distinct,
         non-empty keys other than "<<"; pint splices the pairs the rule does not set itself, Prometheus merges after the explicit
         keys — the same fields as a permutation ([rule_sound_merge]).  Merge keys elsewhere, several merge keys, and `<<` of a
@@ -35,9 +34,12 @@
       - yaml ALIASES are inside the fragment where they are the value of a rule key (`expr: *e`, `for: *d`, `labels: *l`,
         `annotations: *a`) or a value inside a rule's labels / annotations mapping (`severity: *s`), pointing at plain nodes
         ([rule_guard], [alias_to]: an alias node as yaml.v3 returns it — no content, the ShortTag of its target, a non-empty
-        anchor name).  Aliases elsewhere (mapping keys, rule / group items, group-level values) stay outside: for group
-        `labels: *l` the statement is false (known finding C01-group-labels-alias).
+        anchor name), and as the value of a group key — which matters for `labels: *anchor`, read through the anchor by both
+        sides since 17469da; for name / interval / query_offset / limit pint insists on a scalar node and blocks.  Aliases
+        elsewhere (mapping keys, rule / group items, the `rules` / `groups` values) stay outside.
       [plain_guards_doc]: the alias-free fragment of the earlier rounds is an instance.
+    C01_sound_partial (the name of the earlier rounds) is kept as a corollary: the same statement with the now superfluous
+    premise H_null.
     The same oracle [int_ok] (yaml.Node.Decode into a Go int) is used by pint's limit check and by the loader.
     Outside the fragment (aliases, merge keys) the property is searched by the implementation-level oracle only.
 
@@ -46,11 +48,27 @@
     re-checked on every case (same syntax errors, same forest). *)
 From Coq Require Import List String Ascii Arith Bool NArith.
 From PintV Require Import Common.Bytes Model.Yaml Model.Parser Model.Routing Model.PromLoader Model.Reader Model.Comments
-     Proofs.C19_relaxed Proofs.C01_prom Proofs.C01_rule Proofs.C01_group Proofs.C01_merge Proofs.C01_mask Proofs.C01_witness Proofs.C01_tables Gen.C01 Run.C19 Run.C01.
+     Proofs.C19_relaxed Proofs.C01_prom Proofs.C01_rule Proofs.C01_group Proofs.C01_merge Proofs.C01_full Proofs.C01_mask Proofs.C01_witness Proofs.C01_tables Gen.C01 Run.C19 Run.C01.
 Import ListNotations.
 Open Scope string_scope.
 Open Scope list_scope.
 
+Theorem C01_sound_guarded :
+  forall (plines : list string -> node -> nat -> nat * nat)
+         (metric_ok lname_ok lvalue_ok dur_ok expr_ok tmpl_pint tmpl_prom dur_zero : string -> bool)
+         (str_ok int_ok null_ok : node -> bool),
+    (forall n, n_kind n = KScalar -> n_tag n <> nullTag -> str_ok n = true) ->
+    (forall s, tmpl_pint s = true -> tmpl_prom s = true) ->
+    lname_ok "" = false -> lvalue_ok "" = true -> tmpl_prom "" = true ->
+    forall (lines : list string) (ds : list (node * nat)) (yerr : option perror),
+      (forall d nl, ds = [(d, nl)] -> guards_doc d) ->
+      strict_blocks expr_ok dur_ok tmpl_pint
+        (parse_strict plines metric_ok lname_ok lvalue_ok dur_ok int_ok null_ok false lines ds yerr) = false ->
+      prom_accepts str_ok int_ok null_ok expr_ok dur_ok dur_zero metric_ok lname_ok lvalue_ok tmpl_prom (map fst ds) = true.
+Proof. intros. eapply stream_sound_full; eauto. Qed.
+Print Assumptions C01_sound_guarded.
+
+(** The statement of the earlier rounds, now a corollary (its premise H_null is not used any more). *)
 Theorem C01_sound_partial :
   forall (plines : list string -> node -> nat -> nat * nat)
          (metric_ok lname_ok lvalue_ok dur_ok expr_ok tmpl_pint tmpl_prom dur_zero : string -> bool)
@@ -64,25 +82,27 @@ Theorem C01_sound_partial :
       strict_blocks expr_ok dur_ok tmpl_pint
         (parse_strict plines metric_ok lname_ok lvalue_ok dur_ok int_ok null_ok false lines ds yerr) = false ->
       prom_accepts str_ok int_ok null_ok expr_ok dur_ok dur_zero metric_ok lname_ok lvalue_ok tmpl_prom (map fst ds) = true.
-Proof. intros. eapply stream_sound; eauto. Qed.
+Proof. intros. eapply C01_sound_guarded; eauto. Qed.
 Print Assumptions C01_sound_partial.
 
-(** The rule-level core for a rule with one merge key `<<: *anchor`. *)
+(** The rule-level core for a rule with one merge key `<<: *anchor`.  Inside one rule there is no pre-pass: the null oracle is
+    asked to resolve the null-tagged scalars of THIS rule ([nulls_resolve]: every scalar tagged !!null reachable from the
+    rule node resolves to null — what the strict pre-pass establishes for a whole document). *)
 Theorem C01_rule_sound_merge :
   forall (plines : list string -> node -> nat -> nat * nat)
          (metric_ok lname_ok lvalue_ok dur_ok expr_ok tmpl_pint tmpl_prom dur_zero : string -> bool)
          (str_ok null_ok : node -> bool),
     (forall n, n_kind n = KScalar -> n_tag n <> nullTag -> str_ok n = true) ->
-    (forall n, n_kind n = KScalar -> n_tag n = nullTag -> null_text (n_value n) -> null_ok n = true) ->
     (forall s, tmpl_pint s = true -> tmpl_prom s = true) ->
     lname_ok "" = false -> lvalue_ok "" = true -> tmpl_prom "" = true ->
     forall lines rn glabels pre mk mx post t,
+      nulls_resolve null_ok rn ->
       merge_rule_guard rn pre mk mx post t ->
       r_error (parse_rule_strict plines metric_ok lname_ok lvalue_ok lines rn) = None ->
       rule_blocks expr_ok dur_ok tmpl_pint glabels (parse_rule_strict plines metric_ok lname_ok lvalue_ok lines rn) = false ->
       exists pr, dec_rule str_ok null_ok dur_ok rn = DOk pr /\
                  rule_valid expr_ok dur_zero metric_ok lname_ok lvalue_ok tmpl_prom pr = true.
-Proof. intros. eapply rule_sound_merge; eauto. Qed.
+Proof. intros. eapply rule_sound_merge_local; eauto. Qed.
 Print Assumptions C01_rule_sound_merge.
 
 (** The alias-free fragment of the earlier rounds is an instance of the guard. *)
@@ -98,16 +118,16 @@ Theorem C01_rule_sound :
          (metric_ok lname_ok lvalue_ok dur_ok expr_ok tmpl_pint tmpl_prom dur_zero : string -> bool)
          (str_ok int_ok null_ok : node -> bool),
     (forall n, n_kind n = KScalar -> n_tag n <> nullTag -> str_ok n = true) ->
-    (forall n, n_kind n = KScalar -> n_tag n = nullTag -> null_text (n_value n) -> null_ok n = true) ->
     (forall s, tmpl_pint s = true -> tmpl_prom s = true) ->
     lname_ok "" = false -> lvalue_ok "" = true -> tmpl_prom "" = true ->
     forall lines rn glabels,
+      nulls_resolve null_ok rn ->
       rule_guard rn ->
       r_error (parse_rule_strict plines metric_ok lname_ok lvalue_ok lines rn) = None ->
       rule_blocks expr_ok dur_ok tmpl_pint glabels (parse_rule_strict plines metric_ok lname_ok lvalue_ok lines rn) = false ->
       exists pr, dec_rule str_ok null_ok dur_ok rn = DOk pr /\
                  rule_valid expr_ok dur_zero metric_ok lname_ok lvalue_ok tmpl_prom pr = true.
-Proof. intros. eapply rule_sound; eauto. Qed.
+Proof. intros. eapply rule_sound_local; eauto. Qed.
 Print Assumptions C01_rule_sound.
 
 (** Glue: without pint control comments the masking reader masks nothing (output = the file's bytes, its lines, no comments,
